@@ -521,10 +521,12 @@ pub fn run(p: &Params) -> (Stats, &'static str) {
         for k in (0..m_send).step_by(step) {
             faulted(&mut st, &base, Trigger::SendIdx(k), FaultKind::SendErr { silent_source: true }, "Err(WebSocket)", false);
             faulted(&mut st, &base, Trigger::SendIdx(k), FaultKind::SendErr { silent_source: false }, "Err(WebSocket)", false);
+            faulted(&mut st, &base, Trigger::SendIdx(k), FaultKind::FlushErr { silent_source: true }, "Err(WebSocket)", false);
+            faulted(&mut st, &base, Trigger::SendIdx(k), FaultKind::FlushErr { silent_source: false }, "Err(WebSocket)", false);
         }
-        st.exhaustive.push("every cut index of every base scenario x 9 fault kinds".into());
+        st.exhaustive.push("every cut index of every base scenario x 11 fault kinds".into());
         if st.samples.len() < 2 {
-            st.sample(json!({"base": streams::describe(&base), "messages_received": m_recv, "messages_sent": m_send, "cut_points_x_kinds": (m_recv + 1) * 7 + m_send * 2}));
+            st.sample(json!({"base": streams::describe(&base), "messages_received": m_recv, "messages_sent": m_send, "cut_points_x_kinds": (m_recv + 1) * 7 + m_send * 4}));
         }
         if st.too_many_violations() {
             break;
